@@ -13,6 +13,9 @@ pub enum Ty {
     Tuple(Vec<Ty>),
     Adt(String, Vec<Ty>),
     Param(usize),
+    /// a type parameter of a generic `impl<T>` that is kept abstract: the Lean definition is polymorphic in it
+    /// (values of this type can only be moved around)
+    Var(String),
 }
 
 impl Ty {
@@ -34,6 +37,20 @@ impl Ty {
             Ty::Tuple(_) => "tuple".into(),
             Ty::Adt(n, _) => n.clone(),
             Ty::Param(i) => format!("#{i}"),
+            Ty::Var(v) => format!("'{v}"),
+        }
+    }
+    /// the abstract type variables mentioned, in order of first occurrence
+    pub fn vars(&self, out: &mut Vec<String>) {
+        match self {
+            Ty::Var(v) => {
+                if !out.contains(v) {
+                    out.push(v.clone())
+                }
+            }
+            Ty::Opt(t) | Ty::List(t) => t.vars(out),
+            Ty::Tuple(v) | Ty::Adt(_, v) => v.iter().for_each(|t| t.vars(out)),
+            _ => {}
         }
     }
     pub fn has_unknown(&self) -> bool {
@@ -135,9 +152,16 @@ pub struct FnSig {
     pub mut_self: bool,
     /// number of trailing Rust parameters that are not translated (the `calc` resolver)
     pub dropped: usize,
+    /// free function whose first parameter is `&mut T` and which returns `()`: the Lean function returns the updated first argument
+    pub mut_first: bool,
 }
 
 pub struct World {
+    /// set by the module that has compared `CompactLength::{length, percent, auto}` and `CompactLength::{ZERO, AUTO}` with the
+    /// source: the constructor side of the tag ↦ constructor convention (`Self(CompactLength::length(v))` ↦ `.length v`, …)
+    pub length_ctors_checked: bool,
+    /// `pub type A = B;` aliases of registered types (checked against the source by the module that uses them)
+    pub aliases: HashMap<String, String>,
     pub adts: Vec<Adt>,
     pub fns: HashMap<(String, String), Vec<FnSig>>,
     pub consts: HashMap<(String, String), (String, Ty, bool)>,
@@ -187,7 +211,7 @@ fn lean_member(name: &str) -> String {
 
 impl World {
     pub fn new() -> World {
-        let mut w = World { adts: vec![], fns: HashMap::new(), consts: HashMap::new() };
+        let mut w = World { length_ctors_checked: false, aliases: HashMap::new(), adts: vec![], fns: HashMap::new(), consts: HashMap::new() };
         let p0 = Ty::Param(0);
         let f = Ty::F32;
         let of = Ty::opt(Ty::F32);
@@ -254,6 +278,105 @@ impl World {
                 ("margin", rect_f.clone()),
             ],
         );
+        st(
+            &mut w,
+            "LayoutInput",
+            "LayoutInput",
+            true,
+            0,
+            vec![
+                ("run_mode", Ty::adt("RunMode", vec![])),
+                ("sizing_mode", Ty::adt("SizingMode", vec![])),
+                ("axis", Ty::adt("RequestedAxis", vec![])),
+                ("known_dimensions", Ty::adt("Size", vec![of.clone()])),
+                ("parent_size", Ty::adt("Size", vec![of.clone()])),
+                ("available_space", Ty::adt("Size", vec![Ty::adt("AvailableSpace", vec![])])),
+                ("vertical_margins_are_collapsible", Ty::adt("Line", vec![Ty::Bool])),
+            ],
+        );
+        // TaffyVerif/Model/Style.lean: the payload-free style enums (constructor = lower-camel-case variant name)
+        en(&mut w, "Display", "Display", false, vec![("Block", vec![]), ("Flex", vec![]), ("Grid", vec![]), ("None", vec![])]);
+        en(&mut w, "Position", "Position", false, vec![("Relative", vec![]), ("Absolute", vec![])]);
+        en(&mut w, "BoxSizing", "BoxSizing", false, vec![("BorderBox", vec![]), ("ContentBox", vec![])]);
+        en(&mut w, "Overflow", "Overflow", false, vec![("Visible", vec![]), ("Clip", vec![]), ("Hidden", vec![]), ("Scroll", vec![])]);
+        en(&mut w, "TextAlign", "TextAlign", false, vec![("Auto", vec![]), ("LegacyLeft", vec![]), ("LegacyRight", vec![]), ("LegacyCenter", vec![])]);
+        en(&mut w, "FlexDirection", "FlexDirection", false, vec![("Row", vec![]), ("Column", vec![]), ("RowReverse", vec![]), ("ColumnReverse", vec![])]);
+        en(&mut w, "FlexWrap", "FlexWrap", false, vec![("NoWrap", vec![]), ("Wrap", vec![]), ("WrapReverse", vec![])]);
+        en(
+            &mut w,
+            "AlignItems",
+            "AlignItems",
+            false,
+            vec![("Start", vec![]), ("End", vec![]), ("FlexStart", vec![]), ("FlexEnd", vec![]), ("Center", vec![]), ("Baseline", vec![]), ("Stretch", vec![])],
+        );
+        en(
+            &mut w,
+            "AlignContent",
+            "AlignContent",
+            false,
+            vec![
+                ("Start", vec![]),
+                ("End", vec![]),
+                ("FlexStart", vec![]),
+                ("FlexEnd", vec![]),
+                ("Center", vec![]),
+                ("Stretch", vec![]),
+                ("SpaceBetween", vec![]),
+                ("SpaceEvenly", vec![]),
+                ("SpaceAround", vec![]),
+            ],
+        );
+        // TaffyVerif/Model/GridTypes.lean
+        en(&mut w, "GridAutoFlow", "GridPlacement.AutoFlow", false, vec![("Row", vec![]), ("Column", vec![]), ("RowDense", vec![]), ("ColumnDense", vec![])]);
+        // `Style` without its grid fields (those live in the Lean field `grid : GridExt α`; see extract/src/style.rs)
+        let lpa = || Ty::adt("LengthPercentageAuto", vec![]);
+        let lp_ = || Ty::adt("LengthPercentage", vec![]);
+        let dim = || Ty::adt("Dimension", vec![]);
+        let oai = || Ty::opt(Ty::adt("AlignItems", vec![]));
+        let oac = || Ty::opt(Ty::adt("AlignContent", vec![]));
+        st(
+            &mut w,
+            "Style",
+            "Style",
+            true,
+            0,
+            vec![
+                ("display", Ty::adt("Display", vec![])),
+                ("item_is_table", Ty::Bool),
+                ("item_is_replaced", Ty::Bool),
+                ("box_sizing", Ty::adt("BoxSizing", vec![])),
+                ("overflow", Ty::adt("Point", vec![Ty::adt("Overflow", vec![])])),
+                ("scrollbar_width", f.clone()),
+                ("position", Ty::adt("Position", vec![])),
+                ("inset", Ty::adt("Rect", vec![lpa()])),
+                ("size", Ty::adt("Size", vec![dim()])),
+                ("min_size", Ty::adt("Size", vec![dim()])),
+                ("max_size", Ty::adt("Size", vec![dim()])),
+                ("aspect_ratio", of.clone()),
+                ("margin", Ty::adt("Rect", vec![lpa()])),
+                ("padding", Ty::adt("Rect", vec![lp_()])),
+                ("border", Ty::adt("Rect", vec![lp_()])),
+                ("align_items", oai()),
+                ("align_self", oai()),
+                ("justify_items", oai()),
+                ("justify_self", oai()),
+                ("align_content", oac()),
+                ("justify_content", oac()),
+                ("gap", Ty::adt("Size", vec![lp_()])),
+                ("text_align", Ty::adt("TextAlign", vec![])),
+                ("flex_direction", Ty::adt("FlexDirection", vec![])),
+                ("flex_wrap", Ty::adt("FlexWrap", vec![])),
+                ("flex_basis", dim()),
+                ("flex_grow", f.clone()),
+                ("flex_shrink", f.clone()),
+            ],
+        );
+        // TaffyVerif/Model/GridItem.lean: `AbstractAxis` is `GridModel.Ax` (`inl` = Inline, `blk` = Block)
+        en(&mut w, "AbstractAxis", "GridModel.Ax", false, vec![("Inline", vec![]), ("Block", vec![])]);
+        if let AdtKind::Enum(vs) = &mut w.adts.last_mut().unwrap().kind {
+            vs[0].lean = "inl".into();
+            vs[1].lean = "blk".into();
+        }
         // TaffyVerif/Model/Cache.lean (types only)
         let size_of = Ty::adt("Size", vec![of.clone()]);
         let size_av = Ty::adt("Size", vec![Ty::adt("AvailableSpace", vec![])]);
@@ -297,6 +420,7 @@ impl World {
             Ty::Nat => "Nat".into(),
             Ty::Unit => "Unit".into(),
             Ty::Unknown | Ty::Param(_) => "_".into(),
+            Ty::Var(v) => v.clone(),
             Ty::Opt(t) => format!("(Option {})", self.lean_ty(t)),
             Ty::List(t) => format!("(List {})", self.lean_ty(t)),
             Ty::Tuple(v) => format!("({})", v.iter().map(|t| self.lean_ty(t)).collect::<Vec<_>>().join(" × ")),
